@@ -367,17 +367,23 @@ static void run_case(std::istream &in, int via) {
     head << "end a=" << (int)coro_queue::is_active() << " q=" << rq.size() << " susp=" << susp << " res=";
     for (std::size_t i = 0; i < cs.co.size(); ++i) head << (i ? "," : "") << cs.co[i]->resumes;
     print_line(head.str());
-    // shut the case down: everything still suspended is resumed and returns at once
+    // shut the case down: everything still suspended is resumed and returns at once. Done by hand (queue installed
+    // and drained here) so that the verdict on the case never depends on the code under test once more.
     cs.shutdown = true;
-    coro_queue::instance = nullptr;
-    coro_queue::install_queue_and_call([] {});
+    coro_queue::instance = &coro_queue::queue_impl::instance;
     for (int round = 0; round < 1000; ++round) {
+        while (!rq.empty()) {
+            auto h = rq.front();
+            rq.pop_front();
+            h.resume();
+        }
         std::vector<int> ids;
         for (std::size_t i = 0; i < cs.co.size(); ++i)
             if (cs.co[i]->parkkind) ids.push_back((int)i);
         if (ids.empty()) break;
         { suspend_point<void> sp = collect(ids); }
     }
+    coro_queue::instance = nullptr;
     cs.evs.clear();
     cs.co.clear();
     G = nullptr;
